@@ -77,7 +77,7 @@ def check_C04(c):
             jobs.append(('tr_interpret', dict(node=jn, meta=meta, model=m)))
     for jn, meta in _random_trees(c, _q(c, 3000, 60000)):
         jobs.append(('tr_interpret', dict(node=jn, meta=meta, **_mdl(c))))
-    traces = pmake(jobs)
+    traces = pmake(jobs, optimized_share=0.02)
     c.judge('J_Layout', traces, 'interpret', nontrivial=lambda t: len(t['tree']['br']) >= 2)
     c.rule = ('trees enumerated by TLC (MC_Interpret export: duplicate definitions, cycles, over-inverted roles, aligned roles and '
               'targets, "~" in strings) x {default, no-op, MiniAMR}; every tree of tests/ and docs/ x 4 models; random trees '
@@ -102,7 +102,7 @@ def check_C02(c):
             jobs.append(('tr_roundtrip', dict(node=jn, meta=meta, model=m)))
     for jn, meta in _random_trees(c, _q(c, 3000, 60000), wellformed=True):
         jobs.append(('tr_roundtrip', dict(node=jn, meta=meta, **_mdl(c))))
-    traces = pmake(jobs)
+    traces = pmake(jobs, optimized_share=0.02)
     c.judge('J_Layout', traces, 'roundtrip', nontrivial=lambda t: len(t['tree']['br']) >= 2)
     c.rule = ('TLC-enumerated trees (well-formedness decided by the specification), corpus trees x 4 models, random well-formed '
               'trees up to 30 nodes with alignments, concept-less nodes, re-entrancies, cycles, inverted attributes, concepts '
@@ -123,7 +123,7 @@ def check_C14(c):
             jobs.append(('tr_diag', dict(node=jn, meta=meta, model=m)))
     for jn, meta in _random_trees(c, _q(c, 3000, 60000), wellformed=True):
         jobs.append(('tr_diag', dict(node=jn, meta=meta, model=c.rng.choice(['default', 'amr', 'miniamr']))))
-    traces = pmake(jobs)
+    traces = pmake(jobs, optimized_share=0.02)
     c.judge('J_Layout', traces, 'diag', nontrivial=lambda t: len(t['tree']['br']) >= 2)
     c.rule = ('TLC-enumerated trees, corpus trees, random well-formed trees (deep nesting, concept-less nodes with edges, inverted '
               're-entrancies, several closes on one triple) x {default, AMR, MiniAMR}, each also with its markers stripped; '
@@ -180,7 +180,7 @@ def check_C03(c):
         c.rng.shuffle(perm)
         jobs.append(('tr_encode', dict(tr=[tr[i] for i in perm], epi=[epi[i] for i in perm], topreq=c.rng.choice(vs) if vs else None, **mk)))
     _edit_histories(c, jobs, 0.15)
-    traces = pmake(jobs)
+    traces = pmake(jobs, optimized_share=0.02)
     c.judge('J_Layout', traces, 'encode', nontrivial=lambda t: len(t['g']['tr']) >= 3)
     c.rule = ('random well-formed weakly connected graphs (1-8 variables, symbol/string/int/float/None constants incl. 0, 0.0, -1, '
               'roles ending in -of) in shuffled / reversed / original order x every variable (up to 3) and the default as top x '
@@ -209,7 +209,7 @@ def check_C06(c):
                 epi[k].append(c.rng.choice([{'m': 'pop', 'v': ''}, {'m': 'push', 'v': c.rng.choice(vs)}]))
         jobs.append(('tr_encode', dict(tr=tr, epi=epi, topreq=c.rng.choice(vs + [None, 'k']), xtop=c.rng.choice([None, None] + vs))))
     _edit_histories(c, jobs, 0.2)
-    traces = pmake(jobs)
+    traces = pmake(jobs, optimized_share=0.02)
     c.judge('J_Layout', traces, 'encode', nontrivial=lambda t: len(t['g']['tr']) >= 3)
     _stepwise(c, _q(c, 400, 6000))
     c.rule = ('graphs decoded from random well-formed trees under 1-5 marker/order edits (drop markers, drop all POPs, add Push(v) '
@@ -310,7 +310,7 @@ def check_C05(c):
         for top in (vs if len(vs) <= 2 else c.rng.sample(vs, 2)):
             jobs.append(('tr_encode', dict(tr=tr, epi=epi, xtop=tr[0][0], topreq=top, **mk)))
             jobs.append(('tr_encode', dict(tr=tr, epi=epi, xtop=tr[0][0], topreq=top, op='reconfigure', key=c.rng.choice(keys), **mk)))
-    traces = pmake(jobs)
+    traces = pmake(jobs, optimized_share=0.02)
     c.judge('J_Layout', traces, 'relayout', nontrivial=lambda t: len(t.get('tree', t.get('g', {})).get('br', t.get('g', {}).get('tr', []))) >= 3)
     c.rule = ('random well-formed trees and corpus trees x keys {none, original, alphanumeric, canonical, inverted-last, random} x '
               'attributes-first for rearrange; graphs decoded from random trees (with markers and explicit top) and their hand-built '
@@ -341,7 +341,7 @@ def check_C10(c):
     for jn, meta in trees:
         for fmt in c.rng.sample(FORMATS, 2):
             jobs.append(('tr_relabel', dict(node=jn, meta=meta, fmt=fmt, timeout=1.0 if '{' not in ''.join(fmt[-1:]) else 2.0)))
-    traces = pmake(jobs, procs=16)
+    traces = pmake(jobs, procs=16, optimized_share=0.03)
     c.judge('J_Layout', traces, 'relabel', nontrivial=lambda t: len(t['tree']['br']) >= 2)
     c.rule = ('corpus trees and random well-formed trees (concepts/constants equal to variable names, aligned re-entrancies, '
               'concept-less nodes, non-ASCII concepts, numeric variables) x 2 of 12 formats over {prefix} {i} {j} and literals '
